@@ -75,17 +75,32 @@ static void op_openreset(FILE *out, const char *id, char **a, int n) {
     zck_free(&zck); close(fd);
 }
 
-/* OPENLATE <file> <len>: the expected header length is announced AFTER zck_read_lead and before zck_read_header (a caller that
- * learns the length late).  The lead has been checked already, so the option changes nothing: the result is that of an open without
- * a length pin.  -> OK | ERR <stage> */
+/* OPENLATE <file> <len|hl|-> [<type|-> <digest string as hex|-> <a|b>]: expected values announced AFTER zck_read_lead and before
+ * zck_read_header (a caller that learns them late): the checksum type before (b) or after (a) the lead, then the digest, then the
+ * length.  The lead has been checked already, so the late values change nothing: the stored checksum is still what the header is
+ * compared with.  -> OK | ERR <stage> */
 static void op_openlate(FILE *out, const char *id, char **a, int n) {
     int fd = open(a[0], O_RDONLY);
     if(fd < 0) { fprintf(out, "%s HARNESS-ERR nofile\n", id); return; }
     zckCtx *zck = zck_create();
     zck_init_adv_read(zck, fd);
+    const char *t = n > 2 ? a[2] : "-", *d = n > 3 ? a[3] : "-", *when = n > 4 ? a[4] : "a";
+    if(strcmp(t, "-") != 0 && when[0] == 'b') {
+        if(!zck_set_ioption(zck, ZCK_VAL_HEADER_HASH_TYPE, atoll(t))) { fprintf(out, "%s ERR opt_type\n", id); return; }
+    }
     if(!zck_read_lead(zck)) { fprintf(out, "%s ERR lead\n", id); return; }
-    long long v = strcmp(a[1], "hl") == 0 ? (long long)zck_get_header_length(zck) : atoll(a[1]);
-    if(!zck_set_ioption(zck, ZCK_VAL_HEADER_LENGTH, v)) { fprintf(out, "%s ERR opt_len\n", id); return; }
+    if(strcmp(t, "-") != 0 && when[0] != 'b') {
+        if(!zck_set_ioption(zck, ZCK_VAL_HEADER_HASH_TYPE, atoll(t))) { fprintf(out, "%s ERR opt_type\n", id); return; }
+    }
+    if(strcmp(d, "-") != 0) {
+        size_t dl; unsigned char *db = get_hex(d, &dl);
+        if(!zck_set_soption(zck, ZCK_VAL_HEADER_DIGEST, (char *)db, dl)) { fprintf(out, "%s ERR opt_digest\n", id); return; }
+        free(db);
+    }
+    if(strcmp(a[1], "-") != 0) {
+        long long v = strcmp(a[1], "hl") == 0 ? (long long)zck_get_header_length(zck) : atoll(a[1]);
+        if(!zck_set_ioption(zck, ZCK_VAL_HEADER_LENGTH, v)) { fprintf(out, "%s ERR opt_len\n", id); return; }
+    }
     if(!zck_read_header(zck)) { fprintf(out, "%s ERR header\n", id); return; }
     fprintf(out, "%s OK\n", id);
     zck_free(&zck);
